@@ -18,7 +18,7 @@ AXES = ["dwarf-version", "column-info", "type-units"]
 
 
 def plan(tier):
-    return {"n": 120 if tier == "quick" else 2500, "floor": 30 if tier == "quick" else 600}
+    return {"n": 120 if tier == "quick" else 480, "floor": 30 if tier == "quick" else 115}
 
 
 def rule(tier):
